@@ -24,6 +24,7 @@ func c15(c *eng.Ctx, r *eng.Report) {
 		"R15.5 SignInfo.VerifySign consults no process-local state (its verdict depends only on key, hash and signature). " +
 		"R15.7 before a share has been verified, the only things about the message that decide whether it will be are the reviewed ones (it is a verify message, the sender's key is known, its data hash is this block's): no other branch on message content — in particular none on state keyed by the unauthenticated signer id — stands between a share and its verification; " +
 		"R15.8 the key a member's shares are verified under is bound once: the stored share public key is written only on the not-yet-stored edge (first announcement wins; an announcement is only self-signed, so a later one naming the same member proves nothing), and only AddMemberSignPk writes it. " +
+		"R15.9 garbage from one member cannot end the round: round1.Update returns a non-nil *Error — which terminates the signing party for everyone — only on conditions that do not depend on the content of the message (it is not a verify message; the block is already on chain); a share that fails any check is dropped with `return nil`. " +
 		"Not decided: recovery correctness (C13), network-level behaviour."
 	r.Assume = []string{"groupsig.VerifySig is sound (C14)", "SignInfo.VerifySign(pk) = VerifySig(pk, dataHash, signature)"}
 	c15Round1(c, r)
@@ -34,6 +35,7 @@ func c15(c *eng.Ctx, r *eng.Report) {
 	c15Parking(c, r)
 	c15PreVerifyBranches(c, r)
 	c15KeyBinding(c, r)
+	c15NoFatalOnContent(c, r)
 }
 
 // c15Parking: a verify message that arrives before its party exists is parked
@@ -485,4 +487,46 @@ func c15KeyBinding(c *eng.Ctx, r *eng.Report) {
 		r.Check(!open, rule, key, c.Pos(site.Pos()), "the key is written only when none is stored for that member", "JoinedGroupStorage.AddMemberSignPk can overwrite a stored share public key (a path reaches jg.AddMemberSignPK without the `not stored yet` outcome of GetMemberSignPK): an announcement is only self-signed with the announced key, so any member can re-bind an honest member's id to a key it controls, have a forged share counted under that id and the genuine one dropped as a duplicate — the recovered signature is invalid and the block does not finalise")
 	}
 	r.Check(n >= 1, rule, "key-binding:sites", "", fmt.Sprintf("%d writers", n), "no caller of JoinedGroupInfo.AddMemberSignPK found")
+}
+
+// c15NoFatalOnContent: baseParty.Update forwards a non-nil *Error to party.Err
+// and the processor closes the party. Whatever a single member can put into a
+// message must therefore never lead to one.
+func c15NoFatalOnContent(c *eng.Ctx, r *eng.Report) {
+	const rule = "R15.9"
+	r.Min(rule, 1)
+	fn := c.Func("consensus/logical", "(*round1).Update")
+	if !r.Anchor(fn != nil, rule, "(*round1).Update") {
+		return
+	}
+	var msg *ssa.Parameter
+	for _, p := range fn.Params {
+		if p.Name() == "msg" {
+			msg = p
+		}
+	}
+	bad := ""
+	nerr := 0
+	for _, re := range eng.Returns(fn) {
+		v := re.Incoming(0)
+		if eng.IsNilConst(v) {
+			continue
+		}
+		nerr++
+		blk := re.Ret.Block()
+		if re.Pred != nil {
+			blk = re.Pred
+		}
+		for _, cd := range eng.EdgeConds(blk) {
+			if msg == nil || !deepDerives(cd.V, msg) {
+				continue
+			}
+			// the one reviewed content-dependent fatal: the message is not a verify message at all (a local dispatch error)
+			if d := eng.Desc(cd.V); strings.HasPrefix(d, "msg.(") && strings.HasSuffix(d, "#1") {
+				continue
+			}
+			bad = c.Pos(re.Ret.Pos()) + " under " + eng.Desc(cd.V)
+		}
+	}
+	r.Check(bad == "" && nerr >= 1, rule, "round1.Update:no-fatal-on-content", c.Pos(fn.Pos()), "no error return depends on what the message carries", "round1.Update returns a fatal *Error at "+bad+", a condition on what the sender put into the message: the error ends the signing party, so one faulty member sending a malformed share stops a block for which enough valid shares would have arrived")
 }
